@@ -72,7 +72,18 @@ def _mkaddr(ctx, name, cls, mx, tag="n"):
     return cls(n), n
 
 
+def _other_frames_first():
+    """History for the write cases: the same slices the address / instance writers use, written into frames of
+    the *other* width (and a few more) before - what was computed for one frame must not be applied to another."""
+    for bits in (16, 24, 8, 32):
+        g = F.ForwardFrame(bits, 0)
+        for hi, lo in ((15, 8), (7, 0), (15, 9), (23, 17), (23, 16), (12, 9), (14, 10), (21, 17), (8, 8), (16, 16)):
+            if hi < bits:
+                g[hi:lo] = 1
+
+
 def h_write(ctx, kind, device):
+    _other_frames_first()
     name, cls, mx = (DEVICE if device else GEAR)[kind]
     bits = 24 if device else 16
     shift = bits - 7
@@ -189,6 +200,7 @@ def h_inst_read(ctx):
 
 
 def h_inst_write(ctx, kind):
+    _other_frames_first()
     x = ctx.fresh("x", 0, 0xFFFFFF)
     if kind < len(INST):
         name, cls, flags = INST[kind]
